@@ -28,7 +28,7 @@ ASSUMPTIONS = [
     'PKG_RXN; every chemical has Hf, Hfus and Hvap(298.15) (0 for the supercritical gases); Glucose has no gas-phase enthalpy model, so '
     'streams containing Glucose are liquid or multi-phase with Glucose solid',
     'feeds: reactants in excess of the conversion, diluted in 200 kmol/hr CO2 (gas and multi-phase feeds) or water (liquid feeds); T in {280, 298.15, 350, 450} K; '
-    'Q in {0, +1e4, -1e4} kJ/hr; X patterns {0.3.., 1.., mixed}',
+    'Q in {0, +1e4, -1e4} kJ/hr; X patterns {0.3.., 1.., mixed, all 0, reactants absent from the feed}',
     'isothermal clause: the exact identity dHnet = sum dn_i (Hf_i + h_i) is used everywhere; the literal sentence of the property only where it is '
     'thermodynamically meaningful (T = 298.15 K, every reacting species in its reference phase) — DESIGN 3 C06(b)',
     'h_i is re-evaluated with Chemical.H(phase, T, P) of the package (ideal mixture); latent heats from Chemical.phase_ref, Hvap(298.15), Hfus',
@@ -219,7 +219,8 @@ def make_obj(config, Xs):
     return t.ReactionSystem(*rx), ('Y', refs), rx, refs
 
 def xpattern(name, k):
-    return {'p3': [0.3] * k, 'one': [1.0] * k, 'mix': [[1.0, 0.3, 0.5][i % 3] for i in range(k)], 'zero': [0.0] * k}[name]
+    return {'p3': [0.3] * k, 'one': [1.0] * k, 'mix': [[1.0, 0.3, 0.5][i % 3] for i in range(k)], 'zero': [0.0] * k,
+            'nofeed': [0.3] * k}[name]      # 'nofeed': the reactants are absent from the feed, nothing reacts
 
 def tagmap_of(config):
     kind, items, tag, route = config
@@ -308,6 +309,8 @@ class Iso(System):
         phases = ['l'] if (tag == 'none' and gl) else (['g', 'l'] if tag == 'none' else ['m'])
         Ts = (280.0, T_REF, 350.0, 450.0)
         xps = ('p3', 'one', 'mix') if self.tier != 'quick' else ('p3', 'one')
+        # nothing reacts (X = 0 / reactant absent): the heat input must still arrive, the isothermal call must change nothing
+        xps = xps + ('zero', 'nofeed')
         return phases, Ts, xps
 
     def actions(self, st):
@@ -321,6 +324,8 @@ class Iso(System):
         Xs = xpattern(xp, len(items))
         obj, tree, rx, refs = make_obj(st.config, Xs)
         n0, phases, single = feed_for(st.config, ph)
+        if xp == 'nofeed':
+            for ri, r in items: n0[..., POS[r]] = 0.0
         tk = ('S.g' if ph == 'g' else 'S.l') if tag == 'none' else 'M'
         tgt = Target(tk, n0, phases, T=T, P=P_REF)
         s = tgt.stream
